@@ -316,6 +316,8 @@ def impl_general(case):
     nested = None
     for top in sorted(case["desc"]["variants"]):
         kids = case["desc"]["variants"][top]["children"]
+        # (a child whose UID is also the UID of a top-level variant is not addressable by UID: the top-level one answers)
+        kids = {k: v for k, v in kids.items() if v["uid"] not in case["desc"]["variants"]}
         if kids:
             kid = kids[sorted(kids)[0]]
             try:
@@ -325,6 +327,23 @@ def impl_general(case):
                 nested = [kid["uid"], kid["paths"], exc_result(e)]
             except Exception as e:
                 nested = [kid["uid"], kid["paths"], ["err", "Other:" + type(e).__name__]]
+            # ... and after that child was REPLACED under its parent by another object (same id and UID, other paths), the next
+            # write with it as main variant shows the new object's paths
+            if isinstance(nested[2], dict):
+                try:
+                    parent = ti.variants.variants[top]
+                    old = parent.variants[kid["id"]]
+                    new = TI.Variant(ti)
+                    new.id, new.uid, new.name, new.type = old.id, old.uid, old.name, old.type
+                    new.paths.packages, new.paths.repository = "Replaced/Packages", "Replaced"
+                    del parent.variants[kid["id"]]
+                    parent.add(new)
+                    g = mini_ini(_dumps(ti, kid["uid"])).get("general", {})
+                    nested.append([g.get("packagedir"), g.get("repository")])
+                except EXC as e:
+                    nested.append(exc_result(e))
+                except Exception as e:
+                    nested.append(["err", "Other:" + type(e).__name__])
             break
     return ["ok", text, seen, reloaded, nested]
 
